@@ -377,6 +377,9 @@ class VQueue:
         item = self._pop()
         if S.queue_hook:
             S.queue_hook("get", self, item)
+        # shim-level observation used by monitors only: what a blocking consumer took out of a queue
+        if block:
+            S.emit("qget", item=item if isinstance(item, str) else repr(item)[:80])
         return item
 
     def get_nowait(self):
